@@ -202,6 +202,8 @@ class Model:
         raise Unsupported("% formatting")
 
     def subscript(self, ex, base, idx, st, node):
+        if ex.lenient and isinstance(base.ty, ObjT) and base.ty.name == "Opaque":
+            return V(fresh("havoc", Ref), ObjT("Opaque"))
         return None
 
     def slice(self, ex, base, lo, hi, st, node):
@@ -734,6 +736,13 @@ class Model:
         if name == "split" and len(args) == 1 and args[0].ty is STR:
             r = V(fn("str.split", z3.StringSort(), z3.StringSort(), Ref)(t, args[0].term), SeqT(STR))
             st.assume(seq_len(r.term) >= 1)
+            st.assume((seq_len(r.term) >= 2) == z3.Contains(t, args[0].term))       # one piece more than separators (non-empty separator)
+            return r
+        if name == "split" and len(args) == 2 and args[0].ty is STR and args[1].ty is INT and z3.is_int_value(args[1].term):
+            k = args[1].term.as_long()
+            r = V(fn(f"str.split.max{k}", z3.StringSort(), z3.StringSort(), Ref)(t, args[0].term), SeqT(STR))
+            st.assume(z3.And(seq_len(r.term) >= 1, seq_len(r.term) <= k + 1))
+            st.assume((seq_len(r.term) >= 2) == z3.Contains(t, args[0].term))
             return r
         if name in ("strip", "rstrip", "lstrip"):
             f = fn("str." + name + str(len(args)), *([z3.StringSort()] * (len(args) + 1)), z3.StringSort())
@@ -927,12 +936,19 @@ class Model:
         return n
 
     # ------------------------------------------------------------------ loops
-    def loop_key(self, ex, kind):
+    def loop_key(self, ex, kind, node=None):
+        # ordinal of the loop in order of first visit; another path reaching the same loop statement reuses its key
+        memo = ex.__dict__.setdefault("loop_keys", {})
+        if node is not None and id(node) in memo:
+            return memo[id(node)]
         ex.loop_ordinal += 1
-        return f"{kind}#{ex.loop_ordinal}"
+        key = f"{kind}#{ex.loop_ordinal}"
+        if node is not None:
+            memo[id(node)] = key
+        return key
 
     def for_loop(self, ex, s, it, st):
-        key = self.loop_key(ex, "for")
+        key = self.loop_key(ex, "for", s)
         if it.ty is TUPLE:
             return ex.unrolled_for(s, list(it.py), st)
         if it.ty is PY and isinstance(it.py, tuple) and it.py and it.py[0] == "items":
@@ -948,6 +964,12 @@ class Model:
             seq = V(map_keys(it.term), SeqT(it.ty.key))
             self.map_facts(ex, it, st)
             elem = lambda k: V(seq_at(seq.term, k, it.ty.key), it.ty.key)
+            return self.invariant_for(ex, s, key, seq, elem, st)
+        if ex.lenient and isinstance(it.ty, ObjT) and it.ty.name == "Opaque":
+            sty = SeqT(ObjT("Opaque"))
+            seq = V(it.term, sty)
+            st.assume(seq_len(seq.term) >= 0)
+            elem = lambda k: V(seq_at(seq.term, k, sty.elem), sty.elem)
             return self.invariant_for(ex, s, key, seq, elem, st)
         raise Unsupported(f"for over {it!r} at line {s.lineno}")
 
@@ -1016,7 +1038,7 @@ class Model:
                 self.type_facts(ex, nv, st)
 
     def while_loop(self, ex, s, st):
-        key = self.loop_key(ex, "while")
+        key = self.loop_key(ex, "while", s)
         c = ex.contract
         invs = (c.invariants.get(key) if c else None)
         if invs is None:
